@@ -254,6 +254,16 @@ VERUS_UNITS = {
             ('if b.len() == 0 { w } else { buf_world(ent_world(w, b[0], t, comp), b.skip(1), t, comp) }', 'if b.len() == 0 { w } else { ent_world(w, b[0], t, comp) }', 'ReactCache::schedule_removal_reactions'),
         ],
     },
+    'removal_collect': {
+        'template': 'removal_collect.rs.tpl',
+        'owners': [(r'collect_component_removals$', ['C08'])],
+        'negctl': [
+            # the result must be ALL unread reports, not all but the last
+            ('ensures r@ == removed.unread(),', 'ensures r@ == removed.unread().drop_last(),', 'collect_component_removals'),
+            # ... and must not depend on what the recycled buffer contained
+            ('ensures r@ == removed.unread(),', 'ensures r@ == verif_in.0@ + removed.unread(),', 'collect_component_removals'),
+        ],
+    },
     'callbacks': {
         'template': 'callbacks.rs.tpl',
         'owners': [(r'(Raw)?CallbackSystem::(run_with_cleanup|initialize)$', ['C13', 'C17', 'C04']), (r'CallbackSystem::(take_initialized|is_empty|is_new|has_system)$', ['C13']),
@@ -369,7 +379,7 @@ PROPS = {
         note=ENVNOTE + '; Arc/channel: sequential semantics; in unit gc the channel receiver and World::resource are given exclusive (&mut) access in place of crossbeam\'s interior mutability',
         explanation='one clone per effective registration, one drop per revocation, in-flight handle dropped at end, exact ref-count of the signal (Kani, bounded), one collection drains every pending request (Verus, unbounded); collection points in the runner not covered'),
     'C08': dict(category='other', design_ref='DESIGN.md 9.5',
-        text='Despawn half, function level, all proved by Verus on verbatim text for tables / lists / report queues of ANY size: DespawnTrigger::register queues the registration only for a live entity; the register_despawn_reactor system (closure lifted, rule 16) stores the handle iff the entity is alive when the command is applied, never replaces an existing DespawnTracker (replacing it would report a despawn that did not happen) and wires a new tracker to this cache\'s channel for this entity; ReactCache::register_despawn_reactor appends exactly this handle to the entity\'s list; schedule_despawn_reactions consumes the reports front to back until the channel is empty, queues exactly ONE Despawn command per handle registered for a reported entity, naming that entity and carrying the handle, and REMOVES the list - so a second report of the same entity, or a later poll, fires nothing (at most once per watched entity) and an unreported entity fires nothing; schedule_removal_and_despawn_reactors (closure lifted) polls removals, then despawns, then flushes the queued reaction commands before returning; syscommand_runner polls at its entry, on every abort path and - at EVERY level of the tree - after the run and its garbage collection and before any postponed command is replayed (clause E), so a despawn caused inside a tree is reacted to inside that tree. Removal half: track_removals installs exactly one checker per component type ever watched and (Entity)RemovalTrigger::register / register_removal_reactor store exactly one handle in the table their token names (Verus); schedule_removal_reactions (Verus, verbatim modulo the stated loop normalizations, any number of checkers / reported entities / list lengths) polls every checker once, in table order, and for the entities a checker reports queues - in report order - exactly one EntityReaction(Removal(that checker\'s component type)) per entity-scoped registration of that kind on the reported entity followed by one per type-wide removal registration of that component type, each naming the reported entity, and nothing else (what a checker reports is an uninterpreted function: detection is Bevy\'s). NOT covered: detection itself (Bevy: RemovedComponents, component drop on despawn), collect_component_removals (iterator adapter chain), the Last-schedule poll of the plugin, and whole histories (re-insert between polls).',
+        text='Despawn half, function level, all proved by Verus on verbatim text for tables / lists / report queues of ANY size: DespawnTrigger::register queues the registration only for a live entity; the register_despawn_reactor system (closure lifted, rule 16) stores the handle iff the entity is alive when the command is applied, never replaces an existing DespawnTracker (replacing it would report a despawn that did not happen) and wires a new tracker to this cache\'s channel for this entity; ReactCache::register_despawn_reactor appends exactly this handle to the entity\'s list; schedule_despawn_reactions consumes the reports front to back until the channel is empty, queues exactly ONE Despawn command per handle registered for a reported entity, naming that entity and carrying the handle, and REMOVES the list - so a second report of the same entity, or a later poll, fires nothing (at most once per watched entity) and an unreported entity fires nothing; schedule_removal_and_despawn_reactors (closure lifted) polls removals, then despawns, then flushes the queued reaction commands before returning; syscommand_runner polls at its entry, on every abort path and - at EVERY level of the tree - after the run and its garbage collection and before any postponed command is replayed (clause E), so a despawn caused inside a tree is reacted to inside that tree. Removal half: track_removals installs exactly one checker per component type ever watched and (Entity)RemovalTrigger::register / register_removal_reactor store exactly one handle in the table their token names (Verus); schedule_removal_reactions (Verus, verbatim modulo the stated loop normalizations, any number of checkers / reported entities / list lengths) polls every checker once, in table order, and for the entities a checker reports queues - in report order - exactly one EntityReaction(Removal(that checker\'s component type)) per entity-scoped registration of that kind on the reported entity followed by one per type-wide removal registration of that component type, each naming the reported entity, and nothing else (what a checker reports is an uninterpreted function: detection is Bevy\'s). collect_component_removals (Verus, verbatim modulo extraction rule 29 `for_each` -> `for`, any number of reports) returns EXACTLY the removal reports its Bevy reader has not read yet - each once, in report order, nothing filtered out or added, whatever the recycled buffer contained. NOT covered: detection itself (Bevy: RemovedComponents and its cursor, component drop on despawn), the Last-schedule poll of the plugin, and whole histories (re-insert between polls).',
         note=ENVNOTE + '; channel receiver modelled with &mut access; Vec stand-in (drain, &mut iteration); what a removal checker reports is uninterpreted (detection assumed)',
         explanation='despawn registration, despawn and removal dispatch (exactly one command per registration), poll order and poll points in the runner proved (Verus, unbounded); detection (Bevy) and histories between polls not covered'),
     'C10': dict(category='other', design_ref='DESIGN.md 5/C10 + 9.5',
